@@ -39,7 +39,7 @@ def env_for_repo():
     return env
 
 
-def run_cases(cases, lit="exact", want_text=False, timeout=120, jobs=None):
+def run_cases(cases, lit="exact", want_text=False, timeout=120, jobs=None, disable_opt=False):
     """Compile all cases in parallel worker subprocesses; returns list of per-case results in
     input order."""
     jobs = jobs or NPROC
@@ -55,7 +55,8 @@ def run_cases(cases, lit="exact", want_text=False, timeout=120, jobs=None):
             inp = os.path.join(tmp, f"in{i}.pkl")
             outp = os.path.join(tmp, f"out{i}.pkl")
             with open(inp, "wb") as f:
-                pickle.dump({"cases": ch, "lit": lit, "want_text": want_text, "timeout": timeout}, f)
+                pickle.dump({"cases": ch, "lit": lit, "want_text": want_text, "timeout": timeout,
+                             "disable_opt": disable_opt}, f)
             p = subprocess.Popen([PY, os.path.join(HERE, "worker.py"), inp, outp],
                                  env=env_for_repo(), cwd=tmp, stdout=subprocess.PIPE,
                                  stderr=subprocess.PIPE, text=True)
@@ -103,34 +104,48 @@ def _big_stack():
 
 
 def coqc_many(files, timeout=600, jobs=None):
-    """compile generated files in parallel; returns {file: (rc, stdout, stderr)}."""
+    """compile generated files in parallel; returns {file: (rc, stdout, stderr)}.
+    Output goes to temporary files (a pipe would block coqc once its buffer is full)."""
     jobs = jobs or NPROC
     res = {}
     pending = list(files)
     running = []
-    while pending or running:
-        while pending and len(running) < jobs:
-            f = pending.pop(0)
-            p = subprocess.Popen(["coqc", *COQ_FLAGS, f], cwd=COQ, stdout=subprocess.PIPE,
-                                 stderr=subprocess.PIPE, text=True, preexec_fn=_big_stack)
-            running.append((f, p, time.time()))
-        still = []
-        for f, p, t0 in running:
-            rc = p.poll()
-            if rc is None:
-                if time.time() - t0 > timeout:
-                    p.kill()
-                    p.communicate()
-                    res[f] = (-9, "", "TIMEOUT")
+    tmp = tempfile.mkdtemp(prefix="vfcoq_")
+    try:
+        n = 0
+        while pending or running:
+            while pending and len(running) < jobs:
+                f = pending.pop(0)
+                n += 1
+                fo = open(os.path.join(tmp, f"o{n}"), "w+")
+                fe = open(os.path.join(tmp, f"e{n}"), "w+")
+                p = subprocess.Popen(["coqc", *COQ_FLAGS, f], cwd=COQ, stdout=fo, stderr=fe,
+                                     text=True, preexec_fn=_big_stack)
+                running.append((f, p, time.time(), fo, fe))
+            still = []
+            for f, p, t0, fo, fe in running:
+                rc = p.poll()
+                if rc is None:
+                    if time.time() - t0 > timeout:
+                        p.kill()
+                        p.wait()
+                        res[f] = (-9, "", "TIMEOUT")
+                        fo.close()
+                        fe.close()
+                    else:
+                        still.append((f, p, t0, fo, fe))
                 else:
-                    still.append((f, p, t0))
-            else:
-                so, se = p.communicate()
-                res[f] = (rc, so, se)
-        running = still
-        if running:
-            time.sleep(0.02)
-    return res
+                    fo.seek(0)
+                    fe.seek(0)
+                    res[f] = (rc, fo.read(), fe.read())
+                    fo.close()
+                    fe.close()
+            running = still
+            if running:
+                time.sleep(0.02)
+        return res
+    finally:
+        shutil.rmtree(tmp, ignore_errors=True)
 
 
 def clean_gen(prefix):
@@ -162,7 +177,8 @@ def contract_coq(con):
                 out.append([lo, hi])
         return out
     w = "; ".join(f"({lo}, {hi})" for lo, hi in merge(con["w"]))
-    return (f"(mk_ictx [{w}] {con['nc']} {con['nx']} {con['ne']} {con['e_range'][0]} "
+    c = "; ".join(f"({lo}, {hi})" for lo, hi in merge(con.get("c_allowed", [[0, con["nc"]]])))
+    return (f"(mk_ictx [{w}] [{c}] {con['nx']} {con['ne']} {con['e_range'][0]} "
             f"{con['e_range'][1]} {con['np']} {con['p_range'][0]} {con['p_range'][1]})")
 
 
